@@ -968,4 +968,99 @@ def convOK (conv : List Nat) : Bool :=
   ([36] ++ IConv.all.map IConv.byte ++ FConv.all.map FConv.byte).all (fun b => conv.contains b) &&
   ([37, 104, 108, 106, 122, 116, 113]).all (fun b => !conv.contains b)
 
+/-! ## Second-round audit, item 4: what a *failed* read leaves behind
+
+  `scan_from_with` allocates `fmt_buf = malloc(strlen(fmt)+4)` on entry and the only `free(fmt_buf)` stands before the normal
+  `return pos;` (the text pinned by `CelloGen.Text.scanFromWithModelled`): every `throw` between the two — and every exception that
+  passes through from `look_from` — leaves the buffer allocated.  `String_Look` starts with `String_Clear(self)` and appends
+  while it reads: on text that is not a shown String the target is already emptied / half filled when FormatError is raised
+  (`lookString` returns the accumulated value also on error; `scanItem` stores it). -/
+
+/-- does the loop of `String_Look` run out of input inside one of its `scan_from(input, pos, "%c", chr)` calls?  (That is the only
+    exception raised *inside* a nested `scan_from_with`; the two `throw`s of `String_Look` itself happen between such calls.) -/
+def lookLoopRunsOut (c : LookCfg) : List Nat → Bool
+  | [] => true
+  | b :: r =>
+    if b = c.cls then false
+    else if b = c.escb then
+      match r with
+      | [] => true
+      | l :: r' =>
+        match c.esc.lookup l with
+        | none => false
+        | some _ => lookLoopRunsOut c r'
+    else lookLoopRunsOut c r
+
+def lookRunsOut (c : LookCfg) : List Nat → Bool
+  | [] => true
+  | b :: r => if b = c.opn then lookLoopRunsOut c r else false
+
+/-- bytes of `fmt_buf` still allocated after reading one value of shape `sh` at `pos` as the harness does it (`look_from` for
+    `%$`: `Int_Look` / `Float_Look` are `scan_from(input, pos, "%li" / "%lf", self)`, `String_Look` makes one
+    `scan_from(input, pos, "%c", chr)` per character; a numeric specification is one `scan_from(input, pos, spec, target)`):
+    `strlen(fmt) + 4` for the `scan_from_with` call that is left by an exception, 0 when the read succeeds. -/
+def scanLeak (c : Cfg) (i : Input) (pos : Nat) (sh : Shape) : Nat :=
+  match (scanItem c i pos sh).2 with
+  | .raised _ =>
+    (match sh with
+     | .str => (match i.view pos with
+                | some l => if lookRunsOut c.look l then 2 + 4 else 0      -- "%c"
+                | none => 0)
+     | .int => CelloGen.Text.intLookFmt.length + 4
+     | .flt => CelloGen.Text.floatLookFmt.length + 4
+     | .ispec m cv => (ispecFmt m cv).length + 4
+     | .fspec l cv => (fspecFmt l cv).length + 4
+     | .lit _ => 0
+     | .pct => 2 + 4)
+  | _ => 0
+
+/-! ## Second-round audit, item 2: a field width and the `0` flag — *outside* the specifications of `Item`
+
+  The round-trip theorems speak about specifications without flags, width or precision.  What that exclusion hides is modelled here
+  for the two commonest additions, so that it can be exhibited (`C15_width_refuted`) and run (op `W`): printf pads to the width
+  (with the `0` flag: by zeros after the sign); scanf reads the same digits as a *maximal field width* — `0` is not a flag there —
+  so a text longer than the width is cut, and zero padding is taken for an octal prefix by `%i`. -/
+
+/-- the text of `%[0]<w><m><c>` -/
+def ispecWFmt (zero : Bool) (w : Nat) (m : IMod) (c : IConv) : List Nat :=
+  37 :: ((if zero then [48] else []) ++ natDigits w ++ m.text ++ [c.byte])
+
+/-- printf under `%[0]<w><m><c>`: the text of `%<m><c>` padded on the left to at least `w` characters, by blanks or (flag `0`) by
+    zeros after the sign -/
+def printIntSpecW (zero : Bool) (w : Nat) (m : IMod) (c : IConv) (n : Int) : List Nat :=
+  let t := printIntSpec m c n
+  if zero then
+    (match t with
+     | 45 :: ds => 45 :: (List.replicate (w - t.length) 48 ++ ds)
+     | _ => List.replicate (w - t.length) 48 ++ t)
+  else List.replicate (w - t.length) 32 ++ t
+
+/-- the number conversion of scanf with maximal field width `w ≥ 1`: white space is skipped (it does not count), then at most `w`
+    characters belong to the number -/
+def scanNumberW (w : Nat) (c : IConv) (input : List Nat) : Res (Nat × List Nat) :=
+  let s := skipSpace input
+  match scanNumber c (s.take w) with
+  | .ok (p, rest) => .ok (p, rest ++ s.drop w)
+  | .raised e => .raised e
+  | .ub => .ub
+  | .unmodelled => .unmodelled
+
+/-- the integer branch of `scan_from_with` for `%[0]<w><m><c>` (`fmt_buf` holds that text and `%n`; digits are in none of the sets the
+    arms test for) -/
+def scanIntSpecW (c : Cfg) (zero : Bool) (w : Nat) (m : IMod) (cv : IConv) (input : List Nat) : Res (Int × List Nat) :=
+  match selectArm c.intArms (ispecWFmt zero w m cv ++ [37, 110]) with
+  | none => .unmodelled
+  | some arm =>
+    if arm.bits < m.width then .ub
+    else match scanNumberW w cv input with
+      | .ok (p, rest) => .ok (finishInt arm m.width (c.intSigned.contains cv.byte) p, rest)
+      | .raised e => .raised e
+      | .ub => .ub
+      | .unmodelled => .unmodelled
+
+/-- is the width harmless for the round trip: it is at least the length of the text written, and no zero is padded in front of a
+    number read by the conversion that takes a leading `0` for a prefix (`%i`) -/
+def widthSafe (zero : Bool) (w : Nat) (m : IMod) (c : IConv) (n : Int) : Bool :=
+  decide ((printIntSpec m c n).length ≤ w) && !(zero && c == .i && decide ((printIntSpec m c n).length < w)) && decide (1 ≤ w)
+
 end Cello.Text
